@@ -1,6 +1,7 @@
 #!/bin/sh
 # runs every registered quick command (refreshes /verif/evidence); prints one line per check
 cd /verif
+export VERIF_SEED=${VERIF_SEED:-1} VERIF_TIER=quick   # the way vp check runs them
 python3 - <<'PY' > /tmp/.runall_cmds
 import json
 m=json.load(open('/verif/MANIFEST.json'))
